@@ -225,6 +225,7 @@ class ReadRangeCached(Base):
         super().__init__(**kw)
         self.callees = {"HTTPFile.get_cache_chunk": GetCacheChunk()}
         self.loops = {"chunk_index in range(chunk_start, chunk_stop)": LoopSpec(inv=self.inv, havoc=self.loop_havoc,
+                                  hints=self.hints,
                                   modifies=lambda ctx, v: [v.self])}
 
     def inputs(self, ctx):
@@ -240,12 +241,27 @@ class ReadRangeCached(Base):
     def loop_havoc(self, ctx, v):
         v.self.fields["cache"] = fresh_cache(ctx)
 
+    def hints(self, ctx, v):
+        """instances of the unique-quotient lemma for `pos % cs` and `stop % cs`
+           b > 0, p == b*q + r, 0 <= r < b, c*b <= p < (c+1)*b  ==>  q == c"""
+        from pyvc.models import divmod_sym
+        cs, keep, L = fields(v.self)
+        out = []
+        for nm, p, c in (("pos", to_z3(v.pos), v.lo + v.it), ("stop", to_z3(v.stop), v.hi - 1)):
+            q, r = divmod_sym(ctx, p, cs)
+            q, r = to_z3(q), to_z3(r)
+            out.append((f"unique quotient of {nm} by the chunk size",
+                        z3.Implies(z3.And(cs > 0, p == cs * q + r, r >= 0, r < cs,
+                                          c * cs <= p, p < (c + 1) * cs),
+                                   z3.And(q == c, r == p - c * cs))))
+        return out
+
     def inv(self, ctx, v):
         cs, keep, L = fields(v.self)
         start, stop = to_z3(v.old.start), to_z3(v.old.stop)
         data, pos, toread = v.data, to_z3(v.pos), to_z3(v.toread)
         dlen = data.hi - data.lo
-        c = floordiv(start, cs) + v.it          # chunk visited next
+        c = v.lo + v.it                         # chunk visited next (v.lo == start // cs)
         return [("data is content[start:pos]",
                  z3.And(z3.Or(dlen == 0, data.lo == start), pos == start + dlen)),
                 ("toread == stop - pos >= 0", z3.And(toread == stop - pos, toread >= 0)),
@@ -253,6 +269,10 @@ class ReadRangeCached(Base):
                  z3.Or(toread == 0,
                        z3.And(v.it == 0, pos == start),
                        z3.And(v.it > 0, pos == c * cs))),
+                ("the first chunk visited contains start",
+                 z3.And(v.lo * cs <= start, start < (v.lo + 1) * cs, v.lo >= 0)),
+                ("the last chunk visited contains stop",
+                 z3.And((v.hi - 1) * cs <= stop, stop < v.hi * cs)),
                 ("start/stop are not reassigned",
                  z3.And(to_z3(v.start) == start, to_z3(v.stop) == stop)),
                 ("CacheInv", cache_inv(v.self, "i")),
